@@ -256,7 +256,11 @@ def overlapping_writers(ctx: Ctx, kind: str, doc_edges: set) -> None:
     from harness.sched_sql import SqlSched, explore
 
     defer = DeferredThreads().install()
-    sched = LineSched(line_targets=[MemStateBackend._add_histories], deep_targets=[MemStateBackend._add_histories]) if kind == "mem" else SqlSched(patch=SQL_PATCH, max_steps=20000)
+    from pynenc.state_backend.base_state_backend import InvocationHistory
+
+    # (a READER of the history - the monitor, a client - is one more actor: its lines, down to the sort key, are yield points too)
+    sched = (LineSched(line_targets=[MemStateBackend._add_histories, MemStateBackend._get_history, InvocationHistory.timestamp],
+                       deep_targets=[MemStateBackend._add_histories]) if kind == "mem" else SqlSched(patch=SQL_PATCH, max_steps=20000))
     sched.install()
     total = 0
     try:
@@ -275,8 +279,17 @@ def overlapping_writers(ctx: Ctx, kind: str, doc_edges: set) -> None:
                 writers = list(defer.pending)
                 defer.pending.clear()
                 ctx.rng.shuffle(writers)
-                run = sched.run([w.run_now for w in writers[:4]], chooser)
-                for w in writers[4:]:
+                inv_id = got[0].invocation_id
+
+                def reader() -> None:
+                    for _ in range(2):
+                        try:
+                            app.state_backend.get_history(inv_id)
+                        except BaseException:  # noqa: BLE001  (what the reader sees is not judged here; what is STORED afterwards is)
+                            pass
+
+                run = sched.run([w.run_now for w in writers[:3]] + [reader], chooser)
+                for w in writers[3:]:
                     w.run_now()
                 flush(app)
                 judge(ctx, kind, app, rec, doc_edges, f"overlapping-writers:{len(writers)}", {"schedule": run.choices}, one_changer=True)
